@@ -1,8 +1,164 @@
-(* C11 -- lemmas. *)
+(* C11 -- the property-level statements about the model (compare, hash),
+   obtained from compare_depth_spec and the laws of the specification. *)
 From Coq Require Import ZArith QArith Bool List Lia.
-From SV Require Import C11.Model C11.Spec.
+From SV Require Import C11.Model C11.Spec C11.ProofsAtom C11.ProofsValue C11.ProofsLaws C11.ProofsHash.
 Import ListNotations.
 Open Scope Z_scope.
 
-Lemma threeway_neq op c : threeway NEQ c = negb (threeway EQL c).
-Proof. reflexivity. Qed.
+Definition ok (v : value) : bool := fits CompareLimit v.
+
+Section WithHash.
+  Variable hs : list Z -> Z.
+  Notation cmp := (compare hs).
+
+  Lemma cmp_spec x y : ok x = true -> ok y = true ->
+    exists o, cmp3 CompareLimit x y = Some o /\ forall op, cmp op x y = interp op o.
+  Proof. apply compare_depth_spec. Qed.
+
+  Lemma interp_eql_true o : interp EQL o = Ok true -> is_equal o = true.
+  Proof. destruct o; simpl; intro H; try discriminate; reflexivity. Qed.
+  Lemma interp_eql_of_equal o : is_equal o = true -> interp EQL o = Ok true.
+  Proof. destruct o; simpl; intro H; try discriminate; reflexivity. Qed.
+  Lemma interp_lt_true o : interp LT o = Ok true -> o = OLt.
+  Proof. destruct o; simpl; intro H; try discriminate; reflexivity. Qed.
+
+  Lemma eq_true_equal x y : ok x = true -> ok y = true -> cmp EQL x y = Ok true ->
+    oequal (cmp3 CompareLimit x y) = true.
+  Proof.
+    intros Fx Fy H. destruct (cmp_spec x y Fx Fy) as [o [E A]]. rewrite E. simpl.
+    apply interp_eql_true. rewrite <- A. exact H.
+  Qed.
+
+  Lemma eq_refl_lemma x : ok x = true -> cmp EQL x x = Ok true.
+  Proof.
+    intro Fx. destruct (cmp_spec x x Fx Fx) as [o [E A]]. rewrite A.
+    apply interp_eql_of_equal. pose proof (proj1 (laws CompareLimit) x Fx) as R. rewrite E in R. exact R.
+  Qed.
+
+  Lemma flip_interp_eq o : interp EQL (flip o) = interp EQL o.
+  Proof. destruct o; reflexivity. Qed.
+
+  Lemma eq_sym_lemma x y : ok x = true -> ok y = true -> cmp EQL x y = cmp EQL y x.
+  Proof.
+    intros Fx Fy. destruct (cmp_spec x y Fx Fy) as [o [E A]]. destruct (cmp_spec y x Fy Fx) as [o' [E' A']].
+    rewrite A, A'. pose proof (proj1 (proj2 (laws CompareLimit)) x y Fx Fy) as F.
+    rewrite E, E' in F. simpl in F. inversion F. apply eq_sym, flip_interp_eq.
+  Qed.
+
+  Lemma eq_congr_lemma x y z : ok x = true -> ok y = true -> ok z = true -> cmp EQL x y = Ok true ->
+    forall op, cmp op x z = cmp op y z /\ cmp op z x = cmp op z y.
+  Proof.
+    intros Fx Fy Fz H op. pose proof (eq_true_equal x y Fx Fy H) as Q.
+    destruct (laws CompareLimit) as [LR [LF [LC LT']]].
+    destruct (cmp_spec x z Fx Fz) as [o1 [E1 A1]]. destruct (cmp_spec y z Fy Fz) as [o2 [E2 A2]].
+    destruct (cmp_spec z x Fz Fx) as [o3 [E3 A3]]. destruct (cmp_spec z y Fz Fy) as [o4 [E4 A4]].
+    pose proof (LC x y z Fx Fy Fz Q) as C1. rewrite E1, E2 in C1. inversion C1; subst.
+    pose proof (LF x z Fx Fz) as F1. pose proof (LF y z Fy Fz) as F2.
+    rewrite E3, E1 in F1. rewrite E4, E2 in F2. simpl in F1, F2. inversion F1. inversion F2. subst.
+    rewrite A1, A2, A3, A4. split; reflexivity.
+  Qed.
+
+  Lemma eq_trans_lemma x y z : ok x = true -> ok y = true -> ok z = true ->
+    cmp EQL x y = Ok true -> cmp EQL y z = Ok true -> cmp EQL x z = Ok true.
+  Proof.
+    intros Fx Fy Fz H1 H2. rewrite (proj1 (eq_congr_lemma x y z Fx Fy Fz H1 EQL)). exact H2.
+  Qed.
+
+  Lemma eq_total_lemma x y : ok x = true -> ok y = true -> exists b, cmp EQL x y = Ok b /\ cmp NEQ x y = Ok (negb b).
+  Proof.
+    intros Fx Fy. destruct (cmp_spec x y Fx Fy) as [o [E A]]. rewrite !A.
+    destruct o; simpl; eexists; split; reflexivity.
+  Qed.
+
+  Lemma eq_hash_lemma x y : ok x = true -> ok y = true -> cmp EQL x y = Ok true -> hash hs x = hash hs y.
+  Proof. intros Fx Fy H. eapply hash_eq; try eassumption. apply eq_true_equal; assumption. Qed.
+
+  (* one total order: whenever < answers, all six operators answer, consistently *)
+  Lemma order_total_lemma x y l : ok x = true -> ok y = true -> cmp LT x y = Ok l ->
+    exists e g,
+      cmp EQL x y = Ok e /\ cmp GT x y = Ok g /\ cmp NEQ x y = Ok (negb e) /\
+      cmp LE x y = Ok (l || e) /\ cmp GE x y = Ok (g || e) /\
+      cmp LT y x = Ok g /\ cmp GT y x = Ok l /\ cmp LE y x = Ok (g || e) /\ cmp GE y x = Ok (l || e) /\
+      ((l = true /\ e = false /\ g = false) \/ (l = false /\ e = true /\ g = false) \/ (l = false /\ e = false /\ g = true)).
+  Proof.
+    intros Fx Fy H. destruct (cmp_spec x y Fx Fy) as [o [E A]]. destruct (cmp_spec y x Fy Fx) as [o' [E' A']].
+    pose proof (proj1 (proj2 (laws CompareLimit)) x y Fx Fy) as F. rewrite E, E' in F. simpl in F. inversion F; subst o'.
+    rewrite A in H. rewrite !A, !A'.
+    destruct o; simpl in H; try discriminate; inversion H; subst; simpl;
+      do 2 eexists; repeat split; try reflexivity; tauto.
+  Qed.
+
+  Lemma lt_trans_lemma x y z : ok x = true -> ok y = true -> ok z = true ->
+    cmp LT x y = Ok true -> cmp LT y z = Ok true -> cmp LT x z = Ok true.
+  Proof.
+    intros Fx Fy Fz H1 H2.
+    destruct (cmp_spec x y Fx Fy) as [o1 [E1 A1]]. destruct (cmp_spec y z Fy Fz) as [o2 [E2 A2]].
+    destruct (cmp_spec x z Fx Fz) as [o3 [E3 A3]].
+    rewrite A1 in H1. rewrite A2 in H2. apply interp_lt_true in H1. apply interp_lt_true in H2. subst.
+    pose proof (proj2 (proj2 (proj2 (laws CompareLimit))) x y z Fx Fy Fz E1 E2) as T.
+    rewrite E3 in T. inversion T. subst. rewrite A3. reflexivity.
+  Qed.
+
+  (* ---------- ordered classes: < always answers ---------- *)
+  Lemma seq3_ordered c l : forall m,
+    (forall x y, In x l -> In y m -> exists o, c x y = Some o /\ is_ordered o = true) ->
+    exists o, seq3 c l m = Some o /\ is_ordered o = true.
+  Proof.
+    induction l as [|x l IH]; intros [|y m] H; try (eexists; split; reflexivity).
+    cbn [seq3]. destruct (H x y (or_introl eq_refl) (or_introl eq_refl)) as [o [E O]]. rewrite E.
+    destruct (IH m) as [o2 [E2 O2]]. { intros a b Ha Hb. apply H; right; assumption. }
+    destruct o; try discriminate; simpl; try (eexists; split; [reflexivity|reflexivity]); exists o2; split; assumption.
+  Qed.
+
+  Lemma cls_ordered : forall c d x y, has_cls c x = true -> has_cls c y = true ->
+    fits d x = true -> fits d y = true -> exists o, cmp3 d x y = Some o /\ is_ordered o = true.
+  Proof.
+    induction c as [| | | | | |c IH|c IH]; intros [|d] x y Cx Cy Fx Fy; try discriminate;
+      destruct x as [a|l|l|s1 st1 n1|c1 f|kv|ks]; try discriminate;
+      destruct y as [b|m|m|s2 st2 n2|c2 g|kv'|ks']; try discriminate.
+    - destruct a; try discriminate; destruct b; try discriminate; cbn [cmp3]; eexists; split; try reflexivity;
+        unfold atom_cmp3; try rewrite !num_of_float; cbn [num_of]; apply xcmp_ordered.
+    - destruct a; try discriminate; destruct b; try discriminate. eexists; split; [reflexivity|]. apply lex3_not_un.
+    - destruct a; try discriminate; destruct b; try discriminate. eexists; split; [reflexivity|]. apply lex3_not_un.
+    - destruct a; try discriminate; destruct b; try discriminate. eexists; split; [reflexivity|]. apply ord_of_ordered.
+    - destruct a; try discriminate; destruct b; try discriminate. eexists; split; [reflexivity|]. apply ord_of_ordered.
+    - destruct a; try discriminate; destruct b; try discriminate. eexists; split; [reflexivity|]. apply ord_of_ordered.
+    - cbn [cmp3 fits has_cls] in *. apply seq3_ordered. intros x y Hx Hy.
+      apply IH; [apply (forallb_In _ _ _ Cx Hx)|apply (forallb_In _ _ _ Cy Hy)|apply (forallb_In _ _ _ Fx Hx)|apply (forallb_In _ _ _ Fy Hy)].
+    - cbn [cmp3 fits has_cls] in *. apply seq3_ordered. intros x y Hx Hy.
+      apply IH; [apply (forallb_In _ _ _ Cx Hx)|apply (forallb_In _ _ _ Cy Hy)|apply (forallb_In _ _ _ Fx Hx)|apply (forallb_In _ _ _ Fy Hy)].
+  Qed.
+
+  Lemma class_comparable_lemma c x y : has_cls c x = true -> has_cls c y = true -> ok x = true -> ok y = true ->
+    exists l, cmp LT x y = Ok l.
+  Proof.
+    intros Cx Cy Fx Fy. destruct (cls_ordered c CompareLimit x y Cx Cy Fx Fy) as [o [E O]].
+    destruct (cmp_spec x y Fx Fy) as [o' [E' A]]. rewrite E in E'. inversion E'; subst o'.
+    rewrite A. destruct o; try discriminate; eexists; reflexivity.
+  Qed.
+
+  (* ---------- beyond the limit: the depth error or the right answer ---------- *)
+  Lemma depth_sound_lemma d D op x y b : (d <= D)%nat -> fits D x = true -> fits D y = true ->
+    compare_depth hs d op x y = Ok b ->
+    exists o, cmp3 D x y = Some o /\ interp op o = Ok b.
+  Proof.
+    intros L Fx Fy H. apply (compare_depth_mono_le hs d D op x y b L) in H.
+    destruct (compare_depth_spec hs D x y Fx Fy) as [o [E A]]. exists o. split; [exact E|]. rewrite <- A. exact H.
+  Qed.
+
+  (* ---------- equal atoms are interchangeable as dict / set keys ---------- *)
+  Lemma key_match_congr a b k : is_equal (atom_cmp3 a b) = true -> key_match hs a k = key_match hs b k.
+  Proof.
+    intro H. unfold key_match. rewrite (atom_hash_eq hs a b H), !atom_compare_spec, (atom_cmp3_eq_congr a b k H). reflexivity.
+  Qed.
+
+  Lemma dict_get_congr kv a b : is_equal (atom_cmp3 a b) = true -> dict_get hs kv a = dict_get hs kv b.
+  Proof.
+    intro H. induction kv as [|[k v] kv IH]; [reflexivity|]. simpl. rewrite (key_match_congr a b k H), IH. reflexivity.
+  Qed.
+
+  Lemma set_has_congr l a b : is_equal (atom_cmp3 a b) = true -> set_has hs l a = set_has hs l b.
+  Proof.
+    intro H. unfold set_has. induction l as [|k l IH]; [reflexivity|]. simpl. rewrite (key_match_congr a b k H), IH. reflexivity.
+  Qed.
+End WithHash.
